@@ -33,7 +33,9 @@ def draw_config(rng, mode="bounded", allow_restart=False, faults=True):
         c["jobids"] = JOBIDS[: rng.randint(1, 6)]
     if rng.random() < 0.25:
         # legal but unusual explicit ids: 0 and the empty string (falsy)
-        c["jobids"] = c["jobids"] + rng.choice([[0], [""], [0, ""], [2], [3, 2], [0, 1], [3, 4], [2, 3, 4]])
+        c["jobids"] = c["jobids"] + rng.choice([[0], [""], [0, ""], [2], [3, 2], [0, 1], [3, 4], [2, 3, 4],
+                                                # a number and the string that prints the same are different ids
+                                                ["1"], [1, "1"], ["2", 2, "1"], ["1", "2", "3"]])
     if rng.random() < 0.1:
         # channel names are just JSON values used as dictionary keys: numbers are as good as strings
         c["channels"] = [7, 8, 9][: len(c["channels"])]
@@ -252,6 +254,8 @@ class QsRun:
                 chans = [rng.choice(c.channels)]
             elif chans == "two":
                 chans = sorted(rng.sample(c.channels, min(2, len(c.channels))), key=str)
+                if rng.random() < 0.4:
+                    chans = rng.choice([chans[::-1], chans + chans[:1]])
             m["W"], m["chans"] = rng.choice(ws), chans
             return ["send", m["W"], "qpull", {"channels": chans}]
         if k == 1:
@@ -516,7 +520,10 @@ class QsRun:
         elif r < 0.7:
             chans = [rng.choice(c.channels)]
         else:
-            chans = sorted(rng.sample(c.channels, min(2, len(c.channels))))
+            chans = sorted(rng.sample(c.channels, min(2, len(c.channels))), key=str)
+            if rng.random() < 0.3:
+                # any list is a legal channel list: unsorted, or naming a channel twice
+                chans = rng.choice([chans[::-1], chans + chans[:1], chans[:1] * 2])
         return ["send", name, "qpull", {"channels": chans}]
 
     def g_finish(self, sendable, live, deadc):
